@@ -37,6 +37,21 @@ theorem armTests_lbl (mod : String) (sp : Span) : ∀ (arms : List (List Expr ×
     simp only [armTests]
     exact (LblInv.single mod lm "case" (by decide)).append h2
 
+theorem cgEls_labels (mod : String) (ρ : String → Option String) (sp : Span) : ∀ (xs : List Expr) (lm : LM),
+    LblInv mod lm (cgEls mod ρ sp xs lm).2 (definedLabels (cgEls mod ρ sp xs lm).1) := by
+  intro xs
+  induction xs with
+  | nil => intro lm; exact LblInv.nil mod lm
+  | cons x xs ih =>
+    intro lm
+    have h1 := (cpE_labels mod ρ (Frag.depthE x)).1 x lm (Nat.le_refl _)
+    have h2 := ih (cpE mod ρ x lm).2
+    simp only [cgEls, definedLabels_append,
+      definedLabels_instr _ _ _ (rfl : isLabel (Instr.copyPush _ : SInstr) = false),
+      definedLabels_instr _ _ _ (rfl : isLabel (Instr.hostCall _ : SInstr) = false), definedLabels_nil,
+      List.append_nil]
+    exact h1.append h2
+
 theorem cgE_labels (mod : String) (ρ φ : String → Option String) : ∀ (n : Nat),
     (∀ (e : Expr) (lm : LM), Frag.depthGE e ≤ n →
       LblInv mod lm (cgE mod ρ φ e lm).2 (definedLabels (cgE mod ρ φ e lm).1)) ∧
@@ -65,9 +80,20 @@ theorem cgE_labels (mod : String) (ρ φ : String → Option String) : ∀ (n : 
     refine ⟨?_, ?_, ?_, ?_⟩
     · intro e lm hd
       cases e
-      case int | bool | str | null | none | float | range | list | anyobj | obj | lambda | assign
-          | index | member | cast | blockE | tryE =>
+      case int | bool | str | null | none | float | range | anyobj | obj | lambda | assign
+          | member | cast | blockE | tryE =>
         exact LblInv.nil mod lm
+      case list sp ty xs =>
+        simp only [cgE, definedLabels_append,
+          definedLabels_instr _ _ _ (rfl : isLabel (Instr.cloningPush _ : SInstr) = false), definedLabels_nil,
+          List.nil_append]
+        exact cgEls_labels mod ρ sp xs lm
+      case index sp ty b i =>
+        simp only [Frag.depthGE] at hd
+        simp only [cgE, definedLabels_append,
+          definedLabels_instr _ _ _ (rfl : isLabel (Instr.index : SInstr) = false), definedLabels_nil,
+          List.append_nil]
+        exact (ihE b lm (by omega)).append (ihE i _ (by omega))
       case matchE sp ty c arms dflt =>
         cases dflt with
         | none => exact LblInv.nil mod lm
@@ -294,14 +320,26 @@ theorem cgS_labels (mod fn : String) (φ : String → Option String) : ∀ (n : 
       case exprS sp e =>
         cases e
         case assign asp op l r =>
-          cases op <;> cases l <;> try exact LblInv.nil mod env.lm
+          cases l <;> try (cases op <;> exact LblInv.nil mod env.lm)
+          case index isp ity b i =>
+            have hpre : definedLabels (opPre op asp) = [] := by cases op <;> rfl
+            have hpost : definedLabels (opPost op asp) = [] := by
+              cases op with
+              | none => rfl
+              | some o => cases o <;> rfl
+            rw [cgS_idxAssign]
+            simp only [definedLabels_append, hpre, hpost,
+              definedLabels_instr _ _ _ (rfl : isLabel (Instr.assign : SInstr) = false),
+              definedLabels_nil, List.append_nil]
+            exact (cgE_lbl mod _ φ (.index isp ity b i) env.lm).append (cgE_lbl mod _ φ r _)
+          cases op
           · rename_i g _ sg
             cases g <;> cases sg <;> try exact LblInv.nil mod env.lm
             simp only [cgS, definedLabels_append,
               definedLabels_instr _ _ _ (rfl : isLabel (Instr.setVar _ : SInstr) = false),
               definedLabels_nil, List.append_nil]
             exact cgE_lbl mod _ φ r env.lm
-          · rename_i o _ _ _ g _ sg
+          · rename_i _ _ _ g _ sg o
             cases g <;> cases sg <;> try exact LblInv.nil mod env.lm
             have : definedLabels ((arithI o).map (·, asp)) = [] := by cases o <;> rfl
             simp only [cgS, definedLabels_append, this,
